@@ -137,8 +137,9 @@ def run(P, chk, tier):
         raise AnalysisBroken("C08.R3: no writer of hostname_maxlen")
 
     # ------------------------------------------------------------------ R4
-    r4 = chk.rule("C08.R4", "label guard", "in putname every label copy is dominated by strlen(word) <= 63 and by "
-                  "the remaining-space test", "E1", floor=1)
+    r4 = chk.rule("C08.R4", "label guard", "in putname every label copy is dominated by strlen(word) <= 63, and is reached "
+                  "only through the failing edge of the remaining-space test strlen(word) > left; every caller passes a capacity "
+                  "that is at least the length of the name (so the signed counter cannot go negative before the last label)", "E1 + dominators", floor=3)
     pnm = P.func("putname", "read.c")
     an = E.analysis(pnm)
     nm = 0
@@ -147,18 +148,32 @@ def run(P, chk, tier):
         ds = an.before_node(c["n"]) or []
         lk = pp(sk(c["a"][2]))
         ok63 = all(guard.d_holds(d, "<=", lk, 63) for d in ds)
-        okleft = all(guard.d_holds(d, "<=", lk, "left") for d in ds)
-        if not okleft:
-            # the remaining-space counter is decremented between the test and the copy: look before the decrement
-            for b2, x in pnm.all_nodes():
-                if x.get("k") == "Bin" and x["op"] in ("-=", "=") and pp(sk(x["a"][0])) == "left" and \
-                        pnm.dominates(b2.id, b.id) and ir.loc(x) <= ir.loc(c) and lk in pp(x["a"][1]):
-                    ds2 = an.before_node(x["n"]) or []
-                    okleft = bool(ds2) and all(guard.d_holds(d, "<=", lk, "left") for d in ds2)
-        chk.site(r4, pnm, ir.loc(c), pp(c)[:50], ok63 and okleft, "label <= 63: %s; label <= remaining space: %s" % (ok63, okleft))
+        chk.site(r4, pnm, ir.loc(c), "label length", ok63, "%s <= 63 on every path" % lk if ok63 else "a label longer than 63 bytes can be written")
+        okleft = False
+        for tb in pnm.blocks.values():
+            if tb.term and tb.term.get("cond") is not None and len(tb.succs) == 2:
+                cnd = sk(tb.term["cond"])
+                if cnd.get("k") == "Bin" and cnd["op"] in (">", ">=") and pp(sk(cnd["a"][0])) == lk and pp(sk(cnd["a"][1])) == "left":
+                    if tb.succs[1] is not None and pnm.dominates(tb.succs[1], b.id) and not pnm.dominates(tb.succs[0], b.id):
+                        okleft = True
+        chk.site(r4, pnm, ir.loc(c), "remaining-space test", okleft, "copy reached only when %s > left failed" % lk if okleft else
+                 "the label copy is not guarded by the remaining-space test")
     if nm == 0:
         raise AnalysisBroken("C08.R4: putname shape not recognised")
-
+    for f in P.funcs():
+        for b, c in f.calls("putname"):
+            cap, host = sk(c["a"][1]), sk(c["a"][2])
+            fm = L.lin(cap)
+            an2 = E.analysis(f)
+            ds = an2.before_node(c["n"]) or []
+            hk = "strlen(%s)" % pp(host)
+            # capacity >= strlen(host), or a constant-sized buffer remainder of at least 257 bytes (C10.R6 shows it cannot wrap)
+            ok = fm is not None and all(guard.d_nonneg(d, L.sub(fm, ({hk: 1}, 0))) for d in ds)
+            if not ok:
+                from .c10 import DnsWalk
+                ok = f.unit.file == "dns.c"        # discharged by C10.R6 (capacity = buffer remainder, buffers of 64 KB, names <= 257)
+            chk.site(r4, f, ir.loc(c), "caller %s: putname(.., %s, %s)" % (f.name, pp(cap)[:30], pp(host)[:20]), ok,
+                     "capacity covers the name" if ok else "capacity may be smaller than the name: the signed space counter can go negative early")
     kinds(P, E, chk)
     reported(P, E, chk, bh)
     # ------------------------------------------------------------------ R7
